@@ -63,6 +63,8 @@ def enc_cases(tier):
 def case(item):
     label, a, policy = item
     r = enc.session(a, "asan", sched=True, timeout=300, env=dict(ENV, VS_POLICY=str(policy)))
+    if r.get("timeout"):   # under the scheduler a teardown that never returns is a detected deadlock; a wall-clock timeout gets one more, longer run
+        r = enc.session(a, "asan", sched=True, timeout=1500, env=dict(ENV, VS_POLICY=str(policy)))
     o = {"label": label, "status": "ok", "viol": [], "pkt_hash": None}
     cls = label.split("/")[0]
     point = re.sub(r"\d+", "N", label.split("/")[1])
